@@ -46,6 +46,7 @@ type Contract struct {
 	Dyns     [][2]string // dynamic-type bindings at entry: access path, type (may mention $K)
 	Foreach  []string    // the function is verified once per listed type, bound to $K
 	Prune    bool        // follow only feasible branches (solver check at each symbolic branch)
+	ElemPtrs bool   // pointers to slice elements are terms; type tests on symbolic dynamic types are decided by refutation
 	Timeout  int    // solver timeout (s) for this function's obligations when larger than the tier's
 	Axiomatize string // lemma functions: "[group] name {triggers}" - the verified contract (forall parameters: requires ==> ensures) becomes an axiom of that group
 	Recursion int      // inlined functions: self-recursion is inlined up to this call depth (statically bounded recursion)
@@ -110,7 +111,7 @@ var propRe = regexp.MustCompile(`^\[((?:C[0-9]+\s*)+)\]\s*(.*)$`)
 
 var keywords = map[string]bool{"func": true, "iface": true, "property": true, "use": true, "requires": true, "ensures": true,
 	"loop": true, "modifies": true, "trusted": true, "inline": true, "pure": true, "axiom": true, "lemma": true,
-	"ghost": true, "smt": true, "let": true, "extern": true, "macro": true, "rangeinv": true, "at": true, "dispatch": true, "nolockledger": true, "recursion": true, "prune": true, "timeout": true, "axiomatize": true, "logical": true, "dyn": true, "foreach": true, "chan": true, "site": true, "nopanic": true, "end": true, "note": true, "params": true}
+	"ghost": true, "smt": true, "let": true, "extern": true, "macro": true, "rangeinv": true, "at": true, "dispatch": true, "nolockledger": true, "recursion": true, "prune": true, "elemptrs": true, "timeout": true, "axiomatize": true, "logical": true, "dyn": true, "foreach": true, "chan": true, "site": true, "nopanic": true, "end": true, "note": true, "params": true}
 
 func (e *Engine) loadContracts(dir string, pkg *types.Package) error {
 	path := filepath.Join(dir, "verif_contracts.go")
@@ -271,6 +272,8 @@ func (e *Engine) loadContracts(dir string, pkg *types.Package) error {
 			cur.NoLockLedger = true
 		case "prune":
 			cur.Prune = true
+		case "elemptrs":
+			cur.ElemPtrs = true
 		case "timeout":
 			cur.Timeout, _ = strconv.Atoi(strings.TrimSpace(rest))
 		case "axiomatize":
